@@ -229,7 +229,7 @@ def handleNames : List String → String
     | some files =>
       let w : World String := { builtins := splitC b, prelude := splitC p, files := files }
       let idxs := List.range files.length
-      let clashes := idxs.foldl (fun acc k => acc ++ (ownTable w k).2 ++ (effective w k).clashes) []
+      let clashes := idxs.foldl (fun acc k => acc ++ (ownTable w k).2 ++ memberClashes w k ++ (effective w k).clashes) []
       let bad := idxs.foldl (fun acc k => acc + (effective w k).badImports) 0
       let per := idxs.map fun k => (k, resolveProbe w true k, resolveTop w true k)
       let unres := per.foldl (fun acc (k, pr, tp) =>
